@@ -312,6 +312,7 @@ pub fn run_shard(def: &PropDef, tier: Tier, seed: u64, shard: u64, of: u64) -> (
         cases: per as u32,
         failure_persistence: None,
         max_shrink_iters: 3000,
+        max_shrink_time: 120_000,
         max_global_rejects: 1_000_000,
         max_local_rejects: 1_000_000,
         ..Config::default()
@@ -322,8 +323,18 @@ pub fn run_shard(def: &PropDef, tier: Tier, seed: u64, shard: u64, of: u64) -> (
     let st = RefCell::new(&mut stats);
     let failed = RefCell::new(false);
     let first_msg: RefCell<Option<String>> = RefCell::new(None);
+    let trace = std::env::var_os("MVV_TRACE").is_some();
     let result = runner.run(&strategy, |case| {
-        let (r, cs) = eval(def.check, &case);
+        if trace {
+            eprintln!("TRACE {}", serde_json::to_string(&case.to_json()).unwrap());
+        }
+        let t_case = Instant::now();
+        let (r, mut cs) = eval(def.check, &case);
+        // informational only (never part of a verdict)
+        cs.max("slowest_case_ms", t_case.elapsed().as_secs_f64() * 1e3);
+        if t_case.elapsed().as_secs_f64() > 5. {
+            eprintln!("SLOW {:.1}s {}", t_case.elapsed().as_secs_f64(), serde_json::to_string(&case.to_sample()).unwrap());
+        }
         let already_failed = *failed.borrow();
         if !already_failed {
             // counting stops at the first failure (the closure re-runs during shrinking)
